@@ -1,2 +1,201 @@
--- stub: replaced by the component's line-protocol driver
-def main : IO Unit := pure ()
+import CelmaVerif.Base.Proto
+import CelmaVerif.Model.LogFormat
+/- line-protocol driver for the log formatting component (C16) -/
+open CelmaVerif CelmaVerif.LogFormat CelmaVerif.Proto
+
+structure St where
+  cr : Option Creator := none       -- the creator and, in `fields`, the definition it writes into
+  sc : Scopes := {}
+  msg : Option Msg := none
+  tf : List (Text × Text) := []     -- strftime table of the current message: format → result
+
+def typIndex : FieldType → Nat
+  | .constant => 0 | .date => 1 | .time => 2 | .time_ms => 3 | .time_us => 4 | .dateTime => 5
+  | .pid => 6 | .threadId => 7 | .lineNbr => 8 | .functionName => 9 | .fileName => 10
+  | .msgLevel => 11 | .msgClass => 12 | .errorNbr => 13 | .text => 14 | .attribute => 15
+
+def fieldKind : String → Option FieldType
+  | "constant" => some .constant | "date" => some .date | "time" => some .time
+  | "time_ms" => some .time_ms | "time_us" => some .time_us | "date_time" => some .dateTime
+  | "pid" => some .pid | "thread_id" => some .threadId | "line" => some .lineNbr
+  | "func" => some .functionName | "file" => some .fileName | "level" => some .msgLevel
+  | "class" => some .msgClass | "errnr" => some .errorNbr | "text" => some .text
+  | "attribute" => some .attribute
+  | _ => none
+
+def dump (fs : List Field) : String :=
+  let one (f : Field) : String :=
+    s!"{typIndex f.typ}/{hexOut f.const}/{f.width}/{if f.left then "L" else "R"}"
+  s!"ok n={fs.length} fields={if fs.isEmpty then "-" else String.intercalate "," (fs.map one)}"
+
+/-- "null" = nullptr, otherwise hex -/
+def sepArg (s : String) : Option (Option Text) :=
+  if s == "null" then some none else (hexDecode s).map some
+
+/-- "n:v,n:v" -/
+def pairList (s : String) : Option (List (Text × Text)) :=
+  if s == "-" || s == "" then some []
+  else ((s.splitOn ",").filter (fun p => p ≠ "" ∧ p ≠ "-")).mapM fun p =>
+    match p.splitOn ":" with
+    | [a, b] => match hexDecode a, hexDecode b with
+      | some x, some y => some (x, y)
+      | _, _ => none
+    | _ => none
+
+/-- "n:v,n:v;n:v": containers separated by ';', innermost first -/
+def chainArg (s : String) : Option (List Attrs) :=
+  if s == "-" || s == "" then some [] else (s.splitOn ";").mapM pairList
+
+def kvInt (t : List String) (k : String) : Option Int :=
+  match kv t k with
+  | some v => v.toInt?
+  | none => some 0
+
+def kvNat (t : List String) (k : String) : Option Nat :=
+  match kv t k with
+  | some v => v.toNat?
+  | none => some 0
+
+def kvHex (t : List String) (k : String) : Option Text :=
+  match kv t k with
+  | some v => hexDecode v
+  | none => some []
+
+def env (s : St) : Env :=
+  { strftime := fun f _ => match s.tf.find? (fun p => p.1 = f) with | some p => p.2 | none => []
+    glob := s.sc.glob }
+
+/-- effective strftime formats used by a definition -/
+def timeFormats (fs : List Field) : List Text :=
+  fs.filterMap fun f =>
+    let d : Option Text := match f.typ with
+      | .date => some (bytes "%F") | .time => some (bytes "%T") | .dateTime => some (bytes "%F %T")
+      | _ => none
+    d.map fun d => if f.const = [] then d else f.const
+
+def volatileField (f : Field) : Bool :=
+  match f.typ with
+  | .date | .time | .dateTime | .time_ms | .time_us | .pid | .threadId => true
+  | _ => false
+
+def render (s : St) (m : Msg) (fs : List Field) : String :=
+  "ok " ++ hexOut (format (env s) m {} fs).out
+
+def evStep (s : St) (e : Ev) : St × String :=
+  match s.sc.step e with
+  | some sc => ({ s with sc := sc }, "ok")
+  | none => (s, "bad-op")
+
+def defStep (s : St) (c : Creator) (t : Tok) : St × String := ({ s with cr := some (c.step t) }, "ok")
+
+def slogParts (s : St) (m : Msg) (spec : String) : Option Text :=
+  if spec == "-" || spec == "" then some []
+  else (spec.splitOn ",").foldlM (fun acc p =>
+    let body := (p.drop 2).toString
+    if p.startsWith "t:" then (hexDecode body).map (acc ++ ·)
+    else if p.startsWith "a:" then (hexDecode body).map fun n => acc ++ attrValue (env s) m n
+    else none) []
+
+def step (s : St) (line : String) : St × String :=
+  let t := tokens line
+  match t with
+  | ["case", _] => ({}, "ok")
+  | ["def", "begin"] => ({ s with cr := some (Creator.new [] none) }, "ok")
+  | ["def", "begin", sep] =>
+    match sepArg sep with
+    | some sp => ({ s with cr := some (Creator.new [] sp) }, "ok")
+    | none => (s, "bad-op")
+  | ["def", "creator"] =>
+    match s.cr with
+    | some c => ({ s with cr := some (Creator.new c.fields none) }, "ok")
+    | none => (s, "bad-op")
+  | ["def", "creator", sep] =>
+    match s.cr, sepArg sep with
+    | some c, some sp => ({ s with cr := some (Creator.new c.fields sp) }, "ok")
+    | _, _ => (s, "bad-op")
+  | ["def", "end"] =>
+    match s.cr with
+    | some c => (s, dump c.fields)
+    | none => (s, "bad-op")
+  | ["def", "width", w] =>
+    match s.cr, w.toInt? with
+    | some c, some w => defStep s c (.width w)
+    | _, _ => (s, "bad-op")
+  | ["def", "left"] =>
+    match s.cr with
+    | some c => defStep s c .left
+    | none => (s, "bad-op")
+  | ["def", "sep", sep] =>
+    match s.cr, sepArg sep with
+    | some c, some sp => defStep s c (.sep sp)
+    | _, _ => (s, "bad-op")
+  | ["def", "datefmt", f] =>
+    match s.cr, hexDecode f with
+    | some c, some f => defStep s c (.fmt f)
+    | _, _ => (s, "bad-op")
+  | ["def", "field", k] =>
+    match s.cr, fieldKind k with
+    | some c, some k => defStep s c (.field k)
+    | _, _ => (s, "bad-op")
+  | ["def", "const", x] =>
+    match s.cr, hexDecode x with
+    | some c, some x => defStep s c (.const x)
+    | _, _ => (s, "bad-op")
+  | ["def", "attr", x] =>
+    match s.cr, hexDecode x with
+    | some c, some x => defStep s c (.attr x)
+    | _, _ => (s, "bad-op")
+  | ["attr", "global", n, v] =>
+    match hexDecode n, hexDecode v with
+    | some n, some v => evStep s (.global n v)
+    | _, _ => (s, "bad-op")
+  | ["attr", "remove", n] =>
+    match hexDecode n with
+    | some n => evStep s (.remove n)
+    | none => (s, "bad-op")
+  | ["attr", "get", n] =>
+    match hexDecode n with
+    | some n => (s, "ok " ++ hexOut (s.sc.glob.get n))
+    | none => (s, "bad-op")
+  | ["scope", "push", n, v] =>
+    match hexDecode n, hexDecode v with
+    | some n, some v => evStep s (.push n v)
+    | _, _ => (s, "bad-op")
+  | ["scope", "pop"] => evStep s .pop
+  | "msg" :: _ =>
+    match kvNat t "level", kvNat t "class", kvInt t "errnr", kvInt t "line", kvHex t "file",
+          kvInt t "pid", kvNat t "tid", kvInt t "time", kvNat t "us", kvHex t "text",
+          chainArg ((kv t "attrs").getD "-"), pairList ((kv t "tf").getD "-") with
+    | some level, some cls, some errnr, some ln, some file, some pid, some tid, some time, some us,
+      some text, some chain, some tf =>
+      let func := bytes ((kv t "func").getD "f")
+      let m : Msg := { level := level, cls := cls, errNbr := errnr, line := ln, file := baseName file,
+                       func := func, pid := pid, tid := tid, time := time, usec := us, text := text,
+                       attrs := chain }
+      ({ s with msg := some m, tf := tf }, s!"ok file={hexOut m.file} func={hexOut m.func}")
+    | _, _, _, _, _, _, _, _, _, _, _, _ => ({ s with msg := none }, "bad-op")
+  | ["format"] | ["format", "dest"] =>
+    match s.cr, s.msg with
+    | some c, some m =>
+      if (timeFormats c.fields).all (fun f => s.tf.any (fun p => p.1 = f)) then (s, render s m c.fields)
+      else (s, "bad-op no strftime table entry")
+    | _, _ => (s, "bad-op")
+  | "slog" :: _ =>
+    match s.cr, kvNat t "level", kvNat t "class", kvInt t "errnr", kvInt t "line", kvHex t "file",
+          chainArg ((kv t "attrs").getD "-") with
+    | some c, some level, some cls, some errnr, some ln, some file, some chain =>
+      if c.fields.any volatileField then (s, "bad-op")
+      else
+        let m0 : Msg := { level := if 1 ≤ level ∧ level ≤ 6 then level else 0,     -- StreamLog << LogLevel
+                          cls := if cls ≤ 6 then cls else 0,                        -- StreamLog << LogClass
+                          errNbr := errnr, line := ln, file := baseName file,
+                          func := bytes ((kv t "func").getD "f"), attrs := chain }
+        match slogParts s m0 ((kv t "parts").getD "-") with
+        | some text =>
+          -- ~StreamLog: an empty text is not delivered at all
+          if text = [] then (s, "ok -") else (s, render s { m0 with text := text } c.fields)
+        | none => (s, "bad-op")
+    | _, _, _, _, _, _, _ => (s, "bad-op")
+  | _ => (s, "bad-op")
+
+def main : IO Unit := run ({} : St) step
